@@ -617,7 +617,7 @@ fn single_arg(description: &'static str) -> impl Clone + Fn(Span) -> IResult<Spa
                     .send_report();
             })
             .map(|e| e.unwrap_or(Expr::Error)),
-            tag(")"),
+            tag(")").preceded_by(multispace0),
             |qc, r| {
                 qc.report_error_for("unterminated function call")
                     .with_code_range(r, "unterminated function call")
@@ -774,12 +774,17 @@ fn low_filter(input: Span) -> IResult<Span, Option<Search>> {
     alt((
         filter_not,
         filter_atom,
-        expect_delimited(tag("("), high_filter, tag(")"), |qc, r| {
-            qc.report_error_for("unterminated parenthesized filter")
-                .with_code_range(r, "unterminated parenthesized filter")
-                .with_resolution("Insert a right parenthesis to terminate this filter")
-                .send_report()
-        }),
+        expect_delimited(
+            tag("(").and(multispace0),
+            high_filter,
+            tag(")").preceded_by(multispace0),
+            |qc, r| {
+                qc.report_error_for("unterminated parenthesized filter")
+                    .with_code_range(r, "unterminated parenthesized filter")
+                    .with_resolution("Insert a right parenthesis to terminate this filter")
+                    .send_report()
+            },
+        ),
     ))(input)
 }
 
@@ -937,12 +942,17 @@ fn atomic(input: Span) -> IResult<Span, Expr> {
     let quoted_string_value = quoted_string.map(data::Value::Str);
     let duration_value = duration.map(data::Value::Duration);
     let value = alt((quoted_string_value, duration_value, num, bool_lit, null)).map(Expr::Value);
-    let parens = expect_delimited(tag("("), expr, tag(")"), |qc, r| {
-        qc.report_error_for("unterminated parenthesized expression")
-            .with_code_range(r, "unterminated parenthesized expression")
-            .with_resolution("Insert a right parenthesis to terminate this expression")
-            .send_report()
-    });
+    let parens = expect_delimited(
+        tag("("),
+        expr,
+        tag(")").preceded_by(multispace0),
+        |qc, r| {
+            qc.report_error_for("unterminated parenthesized expression")
+                .with_code_range(r, "unterminated parenthesized expression")
+                .with_resolution("Insert a right parenthesis to terminate this expression")
+                .send_report()
+        },
+    );
 
     alt((if_op, fcall, value, column_ref, parens)).parse(input)
 }
